@@ -26,7 +26,7 @@ Theorem C07_decrypted_plaintext_needs_own_signature : forall dsig decrypt cfg no
       is_assertion ctx e = true -> exists i det v, rel = [i] /\ detach ctx e = Ok det /\ dsig det = DOk v.
 Proof.
   intros dsig decrypt cfg now root r Hs Hd H.
-  destruct (response_sound dsig decrypt cfg now root r Hs H) as [_ [(s & s' & r0 & Hd' & _)|(r0 & root' & _ & _ & Hdec & Hsa & _ & HV)]].
+  destruct (response_sound dsig decrypt cfg now root r Hs H) as [_ [(s & s' & r0 & Hd' & _)|(r0 & root' & _ & _ & Hdec & Hsa & _ & HV & _)]].
   - rewrite Hd in Hd'. discriminate.
   - exists root'. split; [exact Hdec|]. split; [exact HV|]. eapply signed_assertions_all_direct_and_signed; eauto.
 Qed.
